@@ -153,7 +153,10 @@ def check_rle(vals, num):
         if not ok:
             flag('rle_add_raise', 'add(%r) after %r raised %s' % (v, vals[:k], _exc(err)), exc=type(err).__name__)
             return bad, ('add_raise', k), None
-        # queries interleaved with the adds on the same object: anything a query remembers must not outlive the next add
+        # queries interleaved with the adds on the same object: anything a query remembers must not outlive the next add -
+        # nor must a query that is refused (a position that does not exist; how it is refused is outside the statement)
+        _call(obj.value, k + 5)
+        _call(obj.value, -(k + 5))
         ok, got = _call(lambda: (obj.num_values(), obj.value(k), obj.last()))
         if not ok:
             flag('rle_query_between_adds_raise', 'after %d adds a query raised %s' % (k + 1, _exc(got)), exc=type(got).__name__)
